@@ -154,6 +154,18 @@ PROPS["C06"] = dict(
                "each through interpreter.Language, conditional PutItem on both clients and a Scan filter; TLC recomputes the truth value "
                "with CondOut (Expr.tla) and checks that evaluation left the item unchanged.",
 )
+PROPS["C07"] = dict(
+    title="update expressions apply exactly their actions and nothing else",
+    quick=[L("M_UPD")],
+    thorough=[L("M_UPD")],
+    own=[labparts("Outcome", "Result", "Modified", "NoCrash")],
+    design_ref="DESIGN.md 6 C07",
+    level_text="TLC enumerates update expressions - SET with values, paths, + and -, if_not_exists, list_append, nested and indexed targets; "
+               "REMOVE of attributes, map members and list elements; ADD; DELETE; several clauses together; right-hand sides that read targets "
+               "of other actions - under every typing of the targeted attribute, on items that also carry bystander attributes of seven "
+               "types; the harness applies each through interpreter.Language and UpdateItem+GetItem on both clients and TLC compares the WHOLE "
+               "resulting item with ApplyU (Expr.tla), or requires an error and an unchanged item.",
+)
 
 # properties deliberately not claimed, with the reason (none so far: unbuilt ones get a work-in-progress reason)
 NOT_CLAIMED = {}
